@@ -80,9 +80,18 @@ func (t TypeUsageMeta) IsContext() bool {
 	return t.Name == "Context" && t.PkgPath == "context"
 }
 
-// IsIterable returns a boolean indicating whether this usage is of a slice or an array
+// IsIterable returns a boolean indicating whether this usage is of a slice or an array, by value or by address
 func (t TypeUsageMeta) IsIterable() bool {
-	return t.Root.Kind() == TypeRefKindSlice || t.Root.Kind() == TypeRefKindArray
+	root := t.Root
+	// A pointer to a slice/array (e.g. *[]string) is iterable all the same
+	for root != nil && root.Kind() == TypeRefKindPtr {
+		inner := root.Flatten()
+		if len(inner) != 1 {
+			break
+		}
+		root = inner[0]
+	}
+	return root != nil && (root.Kind() == TypeRefKindSlice || root.Kind() == TypeRefKindArray)
 }
 
 // getAliasMeta attempts to retrieve alias metadata for the given type.
